@@ -425,7 +425,7 @@ func marshalVia(route int, e *eap.EAP) callRes {
 			}
 		}
 		poolAdd(b)
-		return hx(b), nil
+		return hxOwn(b), nil
 	})
 }
 
